@@ -51,6 +51,7 @@ func cmdRun(args []string) {
 	verbose := fs.Bool("v", false, "verbose (crash on engine bugs)")
 	budget := fs.Int64("budget", 0, "step budget")
 	dump := fs.String("dump", "", "write full stats JSON here")
+	first := fs.Bool("first", false, "stop a harness at its first violation")
 	fs.Parse(args)
 	t0 := time.Now()
 	ld, err := loadRepo(*repo, *hdir)
@@ -61,6 +62,7 @@ func cmdRun(args []string) {
 	fmt.Fprintf(os.Stderr, "loaded in %.1fs\n", time.Since(t0).Seconds())
 	cfg := defaultConfig(*tier)
 	cfg.Verbose = *verbose
+	cfg.StopOnFirst = *first
 	if *budget > 0 {
 		cfg.StepBudget = *budget
 	}
